@@ -98,7 +98,7 @@ func (dec *Decoder) readStringAsBytes(utf16Length int) (data []byte, safe bool) 
 		}
 		if !safe {
 			safe = true
-			data = make([]byte, 0, utf16Length*3)
+			data = make([]byte, 0, dec.prealloc(utf16Length)*3) // grows as the characters really arrive
 		}
 		data = append(data, buf...)
 		if !dec.loadMore() {
